@@ -120,22 +120,7 @@ def run(ctx):
             if arms and set(min(arms, key=len)) == {'V2', 'V3'}:
                 empty = True
         ctx.check(P + ':trailer-v3-empty', 'R-table', 'v2/v3 signatures have an empty trailer', empty, function=b.path)
-    # salt table
-    b = ctx.body('crypto::hash::HashAlgorithm::salt_len')
-    if b is not None:
-        dom = b.dominators()
-        tab = {}
-        for i, k, s in b.stmts(lambda s: s['r']['k'] == 'agg' and s['r'].get('v') == 'Some' and s['d']['l'] == 0):
-            o = s['r']['o'][0]
-            if 'k' in o and 'v' in o['k']:
-                arms = [vs for a, vs in arm_context(b, i, dom) if a == 'HashAlgorithm']
-                for v in (min(arms, key=len) if arms else ['?']):
-                    tab[v] = o['k']['v']
-        want = {'Sha224': 16, 'Sha256': 16, 'Sha384': 24, 'Sha512': 32, 'Sha3_256': 16, 'Sha3_512': 32}
-        ctx.check(P + ':salt-table', 'R-table', 'v6 salt sizes equal RFC 9580 Table 23', tab == want, function=b.path, table=tab)
-    b = ctx.body(CFG + 'v6_salt_for')
-    if b is not None:
-        ctx.check(P + ':salt-generated-from-table', 'origin', 'generated salts are sized by HashAlgorithm::salt_len', bool(b.calls(r'HashAlgorithm::salt_len$')), function=b.path)
+    salt_tables(ctx, P)
     # salt first + twins
     twins(ctx, P)
     hashed_subpackets_all_fed(ctx, P)
@@ -161,6 +146,56 @@ def feed_sequence(b):
             ev.append((b.line(i), i, label, who))
     ev.sort()
     return [(l, w) for _, _, l, w in ev]
+
+
+def salt_tables(ctx, P):
+    # salt table
+    b = ctx.body('crypto::hash::HashAlgorithm::salt_len')
+    if b is not None:
+        dom = b.dominators()
+        tab = {}
+        for i, k, s in b.stmts(lambda s: s['r']['k'] == 'agg' and s['r'].get('v') == 'Some' and s['d']['l'] == 0):
+            o = s['r']['o'][0]
+            if 'k' in o and 'v' in o['k']:
+                arms = [vs for a, vs in arm_context(b, i, dom) if a == 'HashAlgorithm']
+                for v in (min(arms, key=len) if arms else ['?']):
+                    tab[v] = o['k']['v']
+        want = {'Sha224': 16, 'Sha256': 16, 'Sha384': 24, 'Sha512': 32, 'Sha3_256': 16, 'Sha3_512': 32}
+        ctx.check(P + ':salt-table', 'R-table', 'v6 salt sizes equal RFC 9580 Table 23', tab == want, function=b.path, table=tab)
+    b = ctx.body(CFG + 'v6_salt_for')
+    if b is not None:
+        ctx.check(P + ':salt-generated-from-table', 'origin', 'generated salts are sized by HashAlgorithm::salt_len', bool(b.calls(r'HashAlgorithm::salt_len$')), function=b.path)
+    # every consumer of a v6 salt compares its length with the table, and an algorithm without a salt size (None) is refused:
+    # no branch on the Option returned by salt_len() lets its None edge reach the point where the salt is used
+    n = 0
+    for p, r in sorted(ctx.f.bodies.items()):
+        if '::tests::' in p or p == CFG + 'v6_salt_for':
+            continue
+        b = ctx.wrap(r)
+        cs = b.calls(r'HashAlgorithm::salt_len$')
+        if not cs:
+            continue
+        n += 1
+        ctx.functions.add(p)
+        oks = ok_exit_blocks(b) or b.returns()
+        bad = None
+        for i, t in b.switches():
+            info = enum_switch_info(b, i)
+            if not info or not info[0].endswith('Option') or not has_origin(b.switch_origins(i), r'call:.*HashAlgorithm::salt_len$'):
+                continue
+            if has_origin(b.switch_origins(i), r'call:.*PartialEq::(eq|ne)$'):
+                continue
+            for j, _ in b.succ(i):
+                if 'None' in (edge_variants(b, i, j) or []):
+                    w = b.find_path(j, set(oks))
+                    if w is not None:
+                        bad = w
+        cmp_ = [g for g, _ in guard_switches(b, oks, [r'call:.*HashAlgorithm::salt_len$'])]
+        ok, wit = must_pass(b, oks, cmp_) if cmp_ else (False, None)
+        ctx.check('%s:salt-length-checked:%s' % (P, p), 'R-dom', 'the v6 salt length is compared with HashAlgorithm::salt_len() in %s, and a hash without a salt size is refused' % p.split('::')[-1],
+                  bad is None and bool(cmp_), function=p, witness=fmt_path(b, bad) if bad else None,
+                  missing='salt_len() == None (MD5, SHA-1, RIPEMD-160) skips the length check' if bad else None)
+    ctx.floor(P + ':salt-length-checked:floor', 'functions comparing a v6 salt length with the table', n, 3)
 
 
 def hashed_subpackets_all_fed(ctx, P):
